@@ -18,7 +18,7 @@ RULE = ('case = generated pipeline built as a real chain in a worker process; fo
         'a required input mock or a required parameter must fail at helper construction. non-trivial = T has >=1 input and >=1 parameter; '
         'distinct = hash(task spec, helper options)')
 REQUIRED = ['helpers', 'compared_with_real_chain', 'arbitrary_mock_values', 'missing_input_reported', 'missing_param_reported', 'test_chain_used',
-            'objects_as_definitions', 'mocks_by_class', 'mocks_by_name', 'mocked_tasks_also_listed']
+            'objects_as_definitions', 'mocks_by_class', 'mocks_by_name', 'mocked_tasks_also_listed', 'mocked_tasks_forced_with_recompute']
 ASSUMPTIONS = ['every helper gets a fresh base dir (re-using one base dir for helpers with other parameters is outside the statement)',
                'global_vars/placeholders are not used here (the helpers have no global_vars argument)']
 BUDGET = {'quick': 60, 'thorough': 1200}
@@ -46,6 +46,8 @@ def run_one(rng, res: CaseResult):
               'objects_as_definitions': rng.random() < 0.5, 'mock_by_class': rng.random() < 0.7, 'explicit_base_dir': rng.random() < 0.5}
         if st['use_test_chain'] and rng.random() < 0.5:
             st['also_listed'] = rng.randrange(1, 9)
+        if st['use_test_chain'] and rng.random() < 0.4:
+            st['force_mock'] = True
         mode = rng.random()
         expect_fail = None
         if mode < 0.25:
@@ -116,7 +118,15 @@ def run_one(rng, res: CaseResult):
                 res.violate(f'{here}: value differs from the value of the same task in the real chain (helper {o["helper_vdigest"]}, real chain {o["real_vdigest"]}, '
                             f'reference {t["vdigest"]})', witness=witness, facts={'tag': 'value_vs_real'})
                 continue
-        ran = [x for x in o['helper_runs'] if x['phase'] == 'start']
+        if 'force_mock_exc' in o:
+            res.violate(f'{here}: force(<mocked task>, recompute=True) on the helper chain failed: {o["force_mock_exc"]}', witness=witness, facts={'tag': 'force_mock_failed'})
+            continue
+        if 'force_mock_vdigest' in o:
+            res.count('mocked_tasks_forced_with_recompute')
+            if o['force_mock_vdigest'] != o['expected_vdigest']:
+                res.violate(f'{here}: after forcing a mocked task the tested task yields another value', witness=witness, facts={'tag': 'value_after_force_mock'})
+                continue
+        ran = [x for x in o['helper_runs'][:o.get('n_records_after_value', len(o['helper_runs']))] if x['phase'] == 'start']
         own = [x for x in ran if x['cls'] == t['spec']['cls']]
         foreign = [x['cls'] for x in ran if x['cls'] != t['spec']['cls']]
         if foreign:
